@@ -29,7 +29,7 @@ package gateway
 //@ func treasureToKeyValuePair(treasureInterface, t)
 //@   property C30
 //@   requires[args] treasureInterface != nil && t != nil && t.ExpiredAt == nil
-//@   modifies *
+//@   modifies all(t)
 //@   ensures[expiry_reported_iff_set] (U_treasure_exp(treasureInterface) != 0) <==> (t.ExpiredAt != nil)
 
 // Cap accounting (property C12). Ghost protocol for the swamp's cap mutex:
@@ -54,3 +54,10 @@ package gateway
 //@   ensures[returns_holding_capmu] ghost("capmu_held") == 1
 //@   ensures[count_taken_under_capmu] ghost("count_under_capmu") == 1
 //@   ensures[count_is_callee_result] count == lastret("Swamp.CountMatchingTreasures") && calls("Swamp.CountMatchingTreasures") == old(calls("Swamp.CountMatchingTreasures")) + 1
+
+// Event delivery (property C19): the timestamp put on the wire denotes the instant of the change
+// (Event.EventTime is in Unix NANOseconds); events with an unknown status are not sent.
+//@ func (Gateway).SubscribeToEvents$1(event)
+//@   property C19
+//@   modifies *
+//@   ensures[event_time_is_the_instant_of_the_change] event != nil && calls("New") > old(calls("New")) ==> ghost("ts_nanos") == old(event.EventTime)
